@@ -170,6 +170,10 @@ def gen_cases(tier, seed):
             yield {'family': 'failpoint', 'pipeline': pid, 'pos': k, 'nshards': nfp, 'seed': seed, 'tier': tier}
     for k in range({'quick': 6, 'thorough': 24}[tier]):
         yield {'family': 'parallelize', 'pipeline': 'PAR', 'pos': k, 'seed': seed, 'tier': tier}
+    # the failing step is a SOURCE given as a plain iterable / generator (rows before, at and after the 100-row
+    # inference sample, and at exhaustion)
+    for k in range({'quick': 2, 'thorough': 8}[tier]):
+        yield {'family': 'source_fault', 'pipeline': 'SRC', 'pos': k, 'seed': seed, 'tier': tier}
     # I/O errors raised by the operating system while an observer writes (disk full, bad path ...): every I/O event
     # of the writers (crash-lab shims) is a fault point
     for pid in ('P1', 'P2', 'P3', 'P5', 'P6'):
@@ -234,6 +238,12 @@ def run_case(case):
         elif verdict == 'not_processor_error':
             add('not_processor_error', '%s: injected %s surfaced as %s' % (where, cls, detail),
                 'not_processor_error/%s' % phase_label.split(':')[0], exc_class=base)
+        elif verdict == 'ok_wrapped' and not (base == 'StopIteration' and detail == 'RuntimeError'):
+            # (a StopIteration raised inside a generator is turned into a RuntimeError by Python itself: PEP 479)
+            # the original exception is only reachable through __cause__/__context__ of another exception that the run
+            # reports as the cause
+            add('wrong_cause', '%s: injected %s but ProcessorError.cause is a %s wrapping it' % (where, cls, detail),
+                'cause_wrapped_in/%s/%s' % (detail, phase_label.split(':')[0]), exc_class=base)
         elif verdict == 'wrong_cause':
             add('wrong_cause', '%s: injected %s but ProcessorError.cause is %s' % (where, cls, detail),
                 'wrong_cause/%s' % phase_label.split(':')[0], exc_class=base)
@@ -242,6 +252,38 @@ def run_case(case):
             add('artifact_committed', '%s: %s at %s positioned after the fault was committed' % (where, k, loc),
                 'artifact_committed/%s/%s' % (k, phase_label.split(':')[0]), exc_class=base)
 
+    if fam == 'source_fault':
+        d = lab.df()
+        n = 150
+        for at in (0, 50, 99, 100, 101, 149, 'end'):
+            for via in ('process', 'results'):
+                cls = rng.choice(faultlab.CLASSES)
+                if cls == 'StopIteration':
+                    cls = 'PrivateError'       # a generator cannot raise StopIteration (PEP 479)
+                tag = 'src%s_%s_%s' % (case['pos'], at, via)
+                injected = faultlab.make_exception(cls, tag)
+                second = rng.random() < 0.5
+
+                def gen(at=at, injected=injected):
+                    for i in range(n):
+                        if i == at:
+                            raise injected
+                        yield {'id': i, 's': 'x%d' % i}
+                    if at == 'end':
+                        raise injected
+
+                def make_steps(tag_, second=second):
+                    st = ([[{'q': 1}, {'q': 2}]] if second else []) + [gen(), d.add_field('z', 'integer', 1),
+                                                                     d.dump_to_path('SD_' + tag_),
+                                                                     d.checkpoint('SC', checkpoint_path='scp_' + tag_)]
+                    return st, [('dump', 'SD_' + tag_), ('checkpoint', 'scp_%s/SC/stream.ndjson' % tag_)]
+                counters['faults_armed'] += 1
+                verdict, detail, committed = run_point('SRC', tag, make_steps, injected, via)
+                cov['fault_sites']['iterable_source/row_%s' % at] = 1
+                judge(verdict, detail, committed, 'iterable source raising at row %s (%s rows, via %s)' % (at, n, via),
+                      cls, 'source_iterable:%s' % ('sample' if isinstance(at, int) and at < 100 else 'after_sample'))
+        return dict(nontrivial=counters['faults_fired'] > 0, violations=viol, cov=cov, counters=counters,
+                    sample={'family': fam})
     if fam == 'inserted':
         pos = case['pos']
         counts = shape_at(pid, pos)
